@@ -15,7 +15,9 @@ RULE = (
     "that contain both domain end points, exact knots and points outside the domain (explicit and default domains, "
     "dyadic and non-dyadic knot spacing); _simulate_basis for every family with/without intercept and normalisation; "
     "orthogonality cases on Gauss-Legendre nodes (Legendre) and uniform full-period grids (Fourier, Wiener); Basis(...) in "
-    "1-D and all 16 2-D family combinations with different sizes per dimension; MultivariateBasis; rejected configurations. "
+    "1-D and all 16 2-D family combinations with different sizes per dimension, and isotropic 2-D bases (same family and size, grids of equal "
+    "length but different values); boundary sizes n_functions in {degree-1, degree, degree+1} with/without intercept, degree passed or "
+    "defaulted; MultivariateBasis; rejected configurations. "
     "A case is non-trivial when the grid has >= 3 points; distinct by content hash"
 )
 PARTIAL = [
@@ -97,6 +99,22 @@ EXHAUSTIVE = dict(quick=False, thorough=True)
 def gen_cases(rng: Rng, tier):
     n = dict(quick=330, thorough=4400)[tier]
     big = tier == "thorough"
+    # boundary sizes of the B-spline family through _simulate_basis: n_functions in {degree-1, degree, degree+1},
+    # with and without intercept, degree passed or left to its default (3); every degree, every run
+    for p in range(1, 6):
+        for nf in (p - 1, p, p + 1):
+            for add in (True, False):
+                nfull = nf if add else nf + 1
+                if nf < 1 or nfull < p:
+                    continue  # fewer functions than the degree (negative n_segments) is outside the property: the code
+                    # returns finite numbers there without complaint (noted in docs/C18.md), the model does not cover it
+                dmin, dmax = _domain(rng)
+                if nfull > p:
+                    xs = [v for v in _bs_grid(rng, dmin, dmax, nfull - p, p, rng.randint(4, 9)) if dmin <= v <= dmax]
+                else:
+                    xs = sorted({dmin, dmax, dmin + (dmax - dmin) * Fraction(rng.randint(1, 15), 16), dmin + (dmax - dmin) * Fraction(rng.randint(1, 15), 16)})
+                yield dict(kind="simedge", fam="bsplines", n=nf, p=p, add=add, norm=False, dmin=rs(dmin), dmax=rs(dmax),
+                           x=[rs(v) for v in xs], default_dom=rng.random() < 0.5, pass_degree=not (p == 3 and rng.random() < 0.6))
     if big:
         # exhaustive small scope of the quantifier: every (n_functions, degree), degree 1..5, n_functions degree+1..40
         for p in range(1, 6):
@@ -110,6 +128,12 @@ def gen_cases(rng: Rng, tier):
                 for add in (True, False):
                     yield dict(kind="basis2", fam=[f1, f2], n=[3, 4], p=2, add=add, norm=False,
                                x1=[rs(v) for v in _std_grid(rng, f1, 4)], x2=[rs(v) for v in _std_grid(rng, f2, 5)])
+                    if f1 == f2:  # isotropic sizes, equal grid lengths, different grid values
+                        g1, g2 = _std_grid(rng, f1, 5, ), _std_grid(rng, f1, 5)
+                        while g1 == g2:
+                            g2 = _std_grid(rng, f1, 5)
+                        yield dict(kind="basis2", fam=[f1, f1], n=[3, 3], p=2, add=add, norm=False, iso=True,
+                                   x1=[rs(v) for v in g1], x2=[rs(v) for v in g2])
     kinds = ["bs", "bs", "bs", "sim", "sim", "ortho", "basis1", "basis2", "basis2", "multi", "reject"]
     for k in range(n):
         kind = kinds[k % len(kinds)]
@@ -173,10 +197,16 @@ def gen_cases(rng: Rng, tier):
             if f2 == "bsplines":
                 n2 = max(n2, p + 1)
             m1, m2 = rng.randint(3, 7), rng.randint(3, 7)
-            if rng.random() < 0.8 and m1 == m2:
+            iso = rng.random() < 0.35
+            if iso:  # same family, same size, grids of EQUAL length but different values in the two directions
+                f2, n2, m2 = f1, n1, m1
+            elif rng.random() < 0.8 and m1 == m2:
                 m2 += 1
+            g1, g2 = _std_grid(rng, f1, m1), _std_grid(rng, f2, m2)
+            while iso and g1 == g2:
+                g2 = _std_grid(rng, f2, m2)
             yield dict(kind=kind, fam=[f1, f2], n=[n1, n2], p=p, add=rng.random() < 0.6, norm=rng.random() < 0.3,
-                       x1=[rs(v) for v in _std_grid(rng, f1, m1)], x2=[rs(v) for v in _std_grid(rng, f2, m2)])
+                       x1=[rs(v) for v in g1], x2=[rs(v) for v in g2], iso=iso)
         elif kind == "multi":
             f1, f2 = rng.choice(FAMILIES), rng.choice(FAMILIES)
             p = rng.randint(1, 3)
@@ -277,6 +307,25 @@ def run_impl(case):
         out["q"] = simpson(full * full, x=x).tolist()
         if case["norm"]:
             out["unit"] = simpson(np.asarray(val) * np.asarray(val), x=x).tolist()
+    elif kind == "simedge":
+        x = _arr(case["x"])
+        kw = _bs_kwargs(case)
+        if not case["pass_degree"]:
+            kw.pop("degree", None)
+        try:
+            v = _sim("bsplines", x, case["n"], False, case["add"], **kw)
+            out["result"] = "finite" if _finite(v) else "nonfinite"
+            out["shape"] = list(v.shape)
+            out["v"] = np.where(np.isfinite(v), v, 0.0).tolist()
+        except Exception as e:  # noqa: BLE001
+            out["result"] = "error:" + err_class(e)
+        if not case["add"]:
+            try:
+                o = _sim("bsplines", x, case["n"] + 1, False, True, **kw)[1:]
+                out["other"] = np.where(np.isfinite(o), o, 0.0).tolist()
+                out["other_result"] = "finite" if _finite(o) else "nonfinite"
+            except Exception as e:  # noqa: BLE001
+                out["other_result"] = "error:" + err_class(e)
     elif kind == "ortho":
         x = _arr(case["x"])
         v = _sim(case["fam"], x, case["n"], False, True)
@@ -341,6 +390,9 @@ def model_lines(case, impl):
     if kind == "bs":
         a, b = _dom(case)
         return [f"bs {rs(a)} {rs(b)} {case['nfun']} {case['p']} {J(case['x'])}"]
+    if kind == "simedge":
+        a, b = _dom(case)
+        return [f"simbs {rs(a)} {rs(b)} {case['n']} {case['p']} {'1' if case['add'] else '0'} {J(case['x'])}"]
     if kind in ("sim", "basis1", "ortho"):
         fam = case["fam"]
         add = "1" if case.get("add", True) else "0"
@@ -407,6 +459,17 @@ def compare(case, impl, model):
         if outs[0].startswith("error") != (impl["result"] != "finite"):
             return [f"model says {outs[0][:30]} but the implementation returned {impl['result']}"]
         return []
+    if kind == "simedge":
+        if outs[0].startswith("error") != (impl["result"] != "finite"):
+            return [f"model says {outs[0][:30]} but the implementation returned {impl['result']}"]
+        if outs[0].startswith("error"):
+            return []
+        a, b = _dom(case)
+        V, sc = outs[0].split(" ")
+        Q, sc = pmat(V), pvec(sc)
+        nfun_eff = case["n"] if case["add"] else case["n"] + 1
+        tols = [_bs_tol(case, s_, a, b, nfun_eff) for s_ in sc]
+        return _cmp_matrix("bsplines (boundary size)", impl["v"], Q, lambda i, j: tols[j])
     if outs[0].startswith("error") or outs[0].startswith("bad"):
         return [f"model rejects the case: {outs[0]}"]
     if kind == "bs":
@@ -504,8 +567,10 @@ def _cond_float(x, a, b, nfun, p):
     return best
 
 
-def _oracle_bs(V, xs, a, b, nfun, p, entry, bad):
-    """V: nfun × len(xs) floats."""
+def _oracle_bs(V, xs, a, b, nfun, p, entry, bad, row0=0):
+    """V: rows row0..nfun-1 of the nfun-function basis (row0 = 1: the basis without its first function)."""
+    if row0:
+        return _oracle_bs_tail(V, xs, a, b, nfun, p, entry, bad, row0)
     h = (b - a) / (nfun - p)
     knots = [a + (k - p) * h for k in range(nfun + p + 1)]
     fa, fb = float(a), float(b)
@@ -532,6 +597,31 @@ def _oracle_bs(V, xs, a, b, nfun, p, entry, bad):
             if abs(Fraction(col[j]) - ex[j]) > Fraction(tol):
                 bad("cox_de_boor", f"function {j} at x={float(x)!r}: {col[j]!r} vs Cox-de Boor {float(ex[j])!r}", entry)
                 return
+
+
+def _oracle_bs_tail(V, xs, a, b, nfun, p, entry, bad, row0):
+    h = (b - a) / (nfun - p)
+    knots = [a + (k - p) * h for k in range(nfun + p + 1)]
+    fa, fb = float(a), float(b)
+    cond = 1 + p * float(max(abs(a), abs(b)) / h)
+    if len(V) != nfun - row0:
+        bad("shape", f"{len(V)} functions, expected {nfun - row0}", entry)
+        return
+    for c, x in enumerate(xs):
+        tol = 64 * EPS * cond * max(1.0, _cond_float(float(x), fa, fb, nfun, p))
+        ex = _cdb_all(knots, p, x, nfun)
+        col = [V[j][c] for j in range(nfun - row0)]
+        if min(col) < -tol:
+            bad("nonneg", f"negative value {min(col)!r} at x={float(x)!r}", entry)
+            return
+        for j in range(nfun - row0):
+            if abs(Fraction(col[j]) - ex[j + row0]) > Fraction(tol):
+                bad("cox_de_boor", f"function {j} (= function {j + row0} of the {nfun}-function basis of degree {p}) at x={float(x)!r}: "
+                    f"{col[j]!r} vs Cox-de Boor {float(ex[j + row0])!r}", entry)
+                return
+        if a <= x <= b and abs(sum(col) + float(ex[0]) - 1) > tol * (p + 1):
+            bad("partition_of_unity", f"functions plus the dropped one sum to {sum(col) + float(ex[0])!r} at x={float(x)!r}", entry)
+            return
 
 
 def oracle(case, impl):
@@ -569,9 +659,31 @@ def oracle(case, impl):
                 if qk > 1e-280 and abs(u - 1) > 1e-10:
                     bad("normalized", f"function {k_} has squared norm {u!r} after normalisation", entry)
                     break
-        if fam == "bsplines" and case["add"] and not case["norm"]:
+        if fam == "bsplines" and not case["norm"]:
             a, b = _dom(case)
-            _oracle_bs(impl["v"], _Fv(case["x"]), a, b, case["n"], case["p"], entry, bad)
+            if case["add"]:
+                _oracle_bs(impl["v"], _Fv(case["x"]), a, b, case["n"], case["p"], entry, bad)
+            else:
+                _oracle_bs(impl["v"], _Fv(case["x"]), a, b, case["n"] + 1, case["p"], entry, bad, row0=1)
+    elif kind == "simedge":
+        entry = "_simulate_basis"
+        nfull = case["n"] if case["add"] else case["n"] + 1
+        valid = nfull > case["p"]
+        if valid and impl["result"] != "finite":
+            bad("boundary_size", f"n_functions={case['n']}, degree={case['p']}, add_intercept={case['add']} is a valid B-spline basis "
+                f"({nfull} functions of degree {case['p']}) but the call gives {impl['result']}", entry)
+        elif not valid and impl["result"] == "finite":
+            bad("reject", f"n_functions={case['n']}, degree={case['p']}, add_intercept={case['add']} has no segment but returns finite values", entry)
+        elif valid:
+            if impl["shape"] != [case["n"], len(case["x"])]:
+                bad("shape", f"shape {impl['shape']} for n_functions={case['n']}", entry)
+                return vs
+            if not case["add"]:
+                if impl.get("other_result") != "finite" or not np.array_equal(np.array(impl["v"]), np.array(impl["other"])):
+                    bad("intercept", f"add_intercept=False with n_functions={case['n']}, degree={case['p']} is not the {case['n'] + 1}-function basis "
+                        "without its first function", entry)
+            a, b = _dom(case)
+            _oracle_bs(impl["v"], _Fv(case["x"]), a, b, nfull, case["p"], entry, bad, row0=0 if case["add"] else 1)
     elif kind == "ortho":
         fam = case["fam"]
         G = np.array(impl["G"])
@@ -622,6 +734,12 @@ def classify(case, impl):
     tags = ["kind:" + case["kind"]]
     if "fam" in case:
         tags.append("family:" + (case["fam"] if isinstance(case["fam"], str) else "x".join(case["fam"])))
+    if case["kind"] == "simedge":
+        tags.append(f"boundary:n-degree={case['n'] - case['p']:+d},intercept={case['add']},degree-passed={case['pass_degree']}")
+        if impl and "result" in impl:
+            tags.append("boundary-result:" + impl["result"].split(":")[0])
+    if case.get("iso"):
+        tags.append("2d-isotropic-equal-length-different-grids")
     if "p" in case and case["kind"] in ("bs", "sim"):
         tags.append(f"degree:{case['p']}")
     if case["kind"] == "bs":
